@@ -195,9 +195,14 @@ type seam struct {
 	log    []obs
 	idle   int
 	cutoff int
-	hit    bool
-	detail string
+	// idleSince: a module may legitimately be busy in real time (fdo.wget downloads in the background while empty
+	// messages go back and forth); the cut-off therefore needs both many idle rounds AND real time without progress
+	idleSince time.Time
+	hit       bool
+	detail    string
 }
+
+const idleWall = 4 * time.Second
 
 var errIdle = errors.New("verif: idle cutoff: neither side sent service info for too many rounds")
 
@@ -250,9 +255,15 @@ func (s *seam) Send(ctx context.Context, msgType uint8, msg any, sess kex.Sessio
 		return typ, io.NopCloser(bytes.NewReader(b)), nil
 	}
 	if devEmpty && len(o.ServiceInfo) == 0 && !o.IsDone {
+		if s.idle == 0 {
+			s.idleSince = time.Now()
+		}
 		s.idle++
 		if s.idle > s.cutoff {
-			return 0, nil, errIdle
+			if time.Since(s.idleSince) > idleWall {
+				return 0, nil, errIdle
+			}
+			time.Sleep(10 * time.Millisecond) // do not spin while a module works in the background
 		}
 	} else {
 		s.idle = 0
@@ -428,7 +439,16 @@ func (m *memRT) RoundTrip(req *http.Request) (*http.Response, error) {
 	m.requests++
 	resp := &http.Response{StatusCode: 200, Status: "200 OK", Proto: "HTTP/1.1", ProtoMajor: 1, ProtoMinor: 1, Header: http.Header{}, Request: req}
 	body := m.data
-	switch m.behave {
+	behave := m.behave
+	// "<fault>-once": only the first request meets the fault, every later one is served correctly (a client that
+	// retries must end with the identical file or with nothing)
+	if b, once := strings.CutSuffix(behave, "-once"); once {
+		behave = "ok"
+		if m.requests == 1 {
+			behave = b
+		}
+	}
+	switch behave {
 	case "ok":
 	case "404":
 		resp.StatusCode, resp.Status = 404, "404 Not Found"
@@ -604,6 +624,20 @@ func judge(c tcase, o outcome) []viol {
 		}
 		return vs
 	}
+	if c.Kind == "wget" && strings.HasSuffix(c.HTTP, "-once") {
+		// the fault hits the first request only: a receiver that gives up ends with nothing, one that retries must
+		// end with the identical file; anything else at the destination is a violation
+		got, ok := o.dest[fileName]
+		switch {
+		case ok && !bytes.Equal(got, o.data):
+			add("file-differs-after-interrupted-transfer", "http %s: %q appeared with %d bytes (source %d), first difference at %d, success reported=%v", c.HTTP, fileName, len(got), len(o.data), firstDiff(got, o.data), success)
+		case !ok && len(o.dest) > 0:
+			add("file-despite-mismatch", "http %s: %d unexpected files at the destination", c.HTTP, len(o.dest))
+		case !ok && success:
+			add("success-without-file", "http %s: the receiver reported success but no file is at the destination", c.HTTP)
+		}
+		return vs
+	}
 	// a fault: the bytes the receiver got, the digest or the length differ from what was announced
 	if got, ok := o.dest[fileName]; ok {
 		if bytes.Equal(got, o.data) && valuePreserving(c) {
@@ -758,7 +792,7 @@ func cases(thorough bool) []tcase {
 	}
 	// wget: sizes and server behaviours
 	for _, sz := range []int{1, 2, 100, 1014, 4096, 70000} {
-		for _, b := range []string{"ok", "404", "500", "refuse", "reset-mid", "reset-end", "flip", "shorter", "longer", "other"} {
+		for _, b := range []string{"ok", "404", "500", "refuse", "reset-mid", "reset-end", "flip", "shorter", "longer", "other", "refuse-once", "500-once", "reset-mid-once", "reset-end-once", "shorter-once", "flip-once"} {
 			if sz == 1 && b == "reset-mid" {
 				continue
 			}
